@@ -55,12 +55,15 @@ DelayOf(c, n, k) ==
     [] c.delay = "float" -> <<1, 3>>
     [] OTHER -> <<1, 10 * n + k>>      \* delay function f(attempt, exc) = 10*attempt + index(exc)
 
+(* pauses are taken BETWEEN consecutive attempts only: from the last invocation's end to the moment the caller has the
+   outcome no pause is taken, no timer is made and no time passes (observed as <<sleeps / timers, time>>) *)
+NoTail == <<0, 0>>
 CANCELLED == 99      \* result: the caller's own cancellation came out (not an outcome of the wrapped function)
 
 Init == /\ cfg \in Configs
         /\ calls = 0 /\ attempt = 0 /\ hist = <<>> /\ pauses = <<>>
         /\ status = "running" /\ result = 0
-        /\ obs = [status |-> "start", calls |-> 0, pauses |-> <<>>, result |-> 0]
+        /\ obs = [status |-> "start", calls |-> 0, pauses |-> <<>>, result |-> 0, tail |-> NoTail]
 
 Retryable(o) ==
   /\ Caught(cfg, o) \/ (Bug = "retry_base" /\ o = "base")
@@ -79,7 +82,7 @@ Attempt(o) ==
                            ELSE Append(pauses, DelayOf(cfg, attempt', calls'))
               /\ status' = "running" /\ result' = 0
          ELSE /\ status' = "raised" /\ result' = calls' /\ UNCHANGED <<attempt, pauses>>
-  /\ obs' = [status |-> status', calls |-> calls', pauses |-> pauses', result |-> result']
+  /\ obs' = [status |-> status', calls |-> calls', pauses |-> pauses', result |-> result', tail |-> NoTail]
 
 (* the caller is cancelled while the async wrapper pauses between two attempts (only possible when a delay is configured:
    without one the wrapper does not suspend between attempts): the cancellation ends the call, nothing is called again *)
@@ -89,7 +92,7 @@ CancelInPause ==
   /\ status' = "raised" /\ result' = CANCELLED
   /\ UNCHANGED <<cfg, calls, attempt, hist, pauses>>
   \* (the pause that was interrupted is not among the completed ones the caller can count)
-  /\ obs' = [status |-> status', calls |-> calls, pauses |-> SubSeq(pauses, 1, Len(pauses) - 1), result |-> result']
+  /\ obs' = [status |-> status', calls |-> calls, pauses |-> SubSeq(pauses, 1, Len(pauses) - 1), result |-> result', tail |-> NoTail]
 
 Next == (\E o \in Outcomes : Attempt(o)) \/ CancelInPause
 Spec == Init /\ [][Next]_vars
